@@ -10,7 +10,7 @@ def run(rep):
     from . import syntactic
     syntactic.caught_exceptions_do_not_escape(rep)
     q = rep.tier == 'quick'
-    fw.standin(rep, 's_c17.py', ['run', rep.seed, 250 if q else 4000],
+    fw.standin(rep, 's_c17.py', ['run', rep.seed, 1000 if q else 6000],
                'fault enumeration: finite/deep/left-recursive/infinite programs x limits x projection raising at answer k',
                'limits {60,100,200,400}; depth parameters up to 1000')
     rep.notes.append('proved for all queries and projection functions: (i) the recursion limit is restored on every exit edge, (ii) no '
